@@ -122,6 +122,11 @@ func (t *ParserTerm) preCheck(ctx *Context) bool {
 
 	case t.Type == ParserTermError:
 		t.Symbol = ctx.Grammar.ErrorTerminal
+
+	case t.Type == ParserTermSimple:
+		// Neither a name nor a literal alias: the term was written as ''.
+		ctx.Errs.Errorf(ctx.Position(t), "empty token literal")
+		return false
 	}
 
 	return true
